@@ -121,6 +121,17 @@ case e: (centroids_of _ _ _) => [c'|] // /IH[[-> [-> _]]|].
   by right; exists cents; split.
 by rewrite (size_centroids_of e); right.
 Qed.
+(* a run that starts at pass 0 (as KMeans does) always iterates at least once: whatever the start
+   centroids and the scale of the data, what it returns is a labelling by nearest (previous)
+   centroid together with the means of that labelling *)
+Theorem kmeans_run_post fuel X cents old labels l c n :
+  kmeans_loop fuel.+1 0 X cents old labels = Some (l, c, n) -> kmeans_post X (size cents) l c.
+Proof.
+rewrite /=.
+case e: (centroids_of _ _ _) => [c'|] // /kmeans_loop_post[[-> [-> _]]|].
+  by exists cents; split.
+by rewrite (size_centroids_of e).
+Qed.
 Theorem kmeans_labels_in_range X ncl l c : (0 < ncl)%N -> kmeans_post X ncl l c ->
   size l = size X /\ all (fun k => (k < ncl)%N) l.
 Proof.
